@@ -21,7 +21,15 @@ the order in which gradient contributions are accumulated differs.  Every genera
 reordering error N*eps (N <= 1e5 accumulated terms) is below 10: TAU = 1e-9 relative to (1 + max|reference|).
 Two classes legitimately differ by more and carry their own derived bound: the default (loose, rtol=1e-6) Krylov
 backward of the optimisers above 5 unknowns, and the adaptive steppers' backward (the augmented adjoint state is laid
-out per *supplied* tensor, so the step-size controller sees a different error norm for each kind).
+out per *supplied* tensor, so the step-size controller sees a different error norm for each kind).  For the same
+reason the second-order gradients of the fixed-step steppers are compared at TAU with a *matched* anchor (a pure
+function with explicit parameters that supplies exactly the tensors the object kind supplies) and with the canonical
+anchor only within the scheme's truncation bound (see DISCRETISATION).
+
+A disagreement says that two representations of one function give different results, not which of them is wrong:
+the solve_ivp / mcquad defects found by this check (a tensor supplied together with a tensor computed from it was
+differentiated through twice) sat in the *anchor* and in the EditableModule kinds alike and were exposed by the kinds
+that supply leaves (nn.Module, pure_inner); a closed form decided (regress/C09/ivp_*.json, mcquad_*.json).
 """
 from __future__ import annotations
 
@@ -36,7 +44,7 @@ PID = "C09"
 # Defect D11 (mcquad backward differentiates without allow_unused) is owned by the C16 engineer.  While it is not
 # repaired the generator keeps away from it by construction: no unused tensor in mcquad cases, and second-order mcquad
 # cases always have a differentiable tensor in log p (otherwise `epf` is an unused input of the inner backward).
-AVOID_D11 = True
+AVOID_D11 = False
 
 RULE = ("case = functional in {rootfinder, equilibrium, minimize, solve_ivp rk4/rk45 (thorough: + euler, rk38, rk23), quad, mcquad "
         "(_dummy1d / mhcustom with a deterministic step), jac, hess} x object kind in {nn, nn_nested, em, em_cont, em_nn, sib1, sib2 "
@@ -512,7 +520,7 @@ def evaluate(case, spec, pspec, consts):
     allleaves = list(leaves) + list(pleaves)
     diff = [lf for lf in allleaves if lf.requires_grad] + ([y_in] if y_in.requires_grad else [])
     res = {"vals": [o.detach() for o in outs], "graph": bool(loss.requires_grad), "g1": None, "g2": None, "unused": None,
-           "nleaf": len(diff)}
+           "nleaf": len(diff) - (1 if y_in.requires_grad else 0)}
     wrt = diff + extra
     if not wrt or not loss.requires_grad:
         return res
@@ -623,7 +631,7 @@ def run_case(case):
         bad = _cmp("grad1:" + func, got["g1"], ref["g1"], t1, labels, "first-order gradient w.r.t. leaf")
         if bad:
             return bad
-        nonzero = any(float(b.abs().max()) > 0 for b in ref["g1"] if b.numel())
+        nonzero = any(float(b.abs().max()) > 0 for b in ref["g1"][:ref["nleaf"]] if b.numel())
     if case["order"] == 2:
         if t2 > TAU and func == "ivp" and opt["method"] not in ("rk45", "rk23"):
             labels.append("anchor2=matched")
@@ -759,13 +767,14 @@ def case_st(draw, tier="quick", kinds=ALL_KINDS, funcs=None):
 
 def tasks(tier):
     tied = ["nn_tied", "nn_tied_nested"]
+    # the small focused tasks run first so that a wall-clock guard cannot starve them
     return [
-        Task("kinds", strategy=case_st(tier), run=run_case, examples={"quick": 2400, "thorough": 40000}),
         Task("krylov2", strategy=case_st(tier, funcs=list(OPTIMISERS)).map(_force_krylov), run=run_case,
-             examples={"quick": 240, "thorough": 3000}),
-        Task("tied", strategy=case_st(tier, kinds=tied), run=run_case, examples={"quick": 240, "thorough": 3000}),
+             examples={"quick": 240, "thorough": 4500}),
+        Task("tied", strategy=case_st(tier, kinds=tied), run=run_case, examples={"quick": 240, "thorough": 3500}),
         Task("twomethods", strategy=case_st(tier, kinds=["em_two"], funcs=["mcquad"]), run=run_case,
-             examples={"quick": 120, "thorough": 1500}),
+             examples={"quick": 120, "thorough": 2000}),
+        Task("kinds", strategy=case_st(tier), run=run_case, examples={"quick": 2400, "thorough": 50000}),
     ]
 
 
